@@ -1,4 +1,5 @@
 (* Props/C08.v — property C08: fail-fast. *)
+From CV Require Proofs.SchedP12.
 From CV Require Import Model.Base Model.Events Model.Contract Model.Sched Proofs.BaseP Proofs.SchedP Proofs.SchedP2 Proofs.SchedP3
   Proofs.SchedP4 Proofs.SchedP7.
 
@@ -49,3 +50,23 @@ Example C08_tripped_nonvacuous :
   | None => (false, false, 0, false)
   end = (true, true, 1, true).
 Proof. vm_compute. reflexivity. Qed.
+
+(* "AT MOST THE ATTEMPTS ALREADY HANDED OUT — FEWER THAN THE LIMIT — STILL BEGIN": on every run of the model under
+   fail-fast with limit K, after a FINAL failure (no retry left) the attempts that still start are exactly the entries
+   that were already dispatched at that moment, and they number at most K-1; nothing else starts, whatever follows *)
+Theorem C08_fewer_than_k_late_starters :
+  forall c K l1 k l2 s1 tr1 s tr2,
+    cf_fail_fast c = true -> cf_concurrency c = Some K ->
+    exec c l1 = Some (s1, tr1) ->
+    (forall e r, set_phase k Opened Ended (running s1) = Some (e, r) -> next_try e true (now s1) = None) ->
+    exec_from c s1 (LAttEnd k true :: l2) = Some (s, tr2) ->
+    (n_started tr2 <= K - 1 /\
+     n_started tr2 + SchedP12.n_disp (running s) = SchedP12.n_disp (running s1) /\
+     SchedP12.n_disp (running s1) <= K - 1)%nat.
+Proof. exact SchedP12.failfast_late_starters. Qed.
+Print Assumptions C08_fewer_than_k_late_starters.
+
+Example C08_late_starters_nonvacuous :
+  SchedP12.n_disp [(mk_entry 1 None 11 false None None None 1 0, Opened);
+                   (mk_entry 1 None 12 false None None None 1 0, Dispatched)] = 1%nat.
+Proof. reflexivity. Qed.
